@@ -10,7 +10,7 @@ import (
 )
 
 // Profile names a scheduling regime for the generated prefix.
-var Profiles = []string{"near-sync", "random", "timeout-heavy", "partition", "equivocate", "late-commit"}
+var Profiles = []string{"near-sync", "random", "timeout-heavy", "partition", "equivocate", "late-commit", "gate", "gate", "laggard"}
 
 type RunOpts struct {
 	Profile    string
@@ -32,6 +32,8 @@ func profileWeights(p string) weights {
 		return weights{deliver: 12, alarm: 3, dup: 1, drop: 1, byz: 10, start: 4}
 	case "partition", "late-commit":
 		return weights{deliver: 16, alarm: 5, dup: 1, drop: 1, byz: 3, start: 4}
+	case "gate", "laggard":
+		return weights{deliver: 30, alarm: 3, dup: 1, drop: 0, byz: 2, start: 8}
 	default:
 		return weights{deliver: 12, alarm: 4, dup: 2, drop: 2, byz: 4, start: 3}
 	}
@@ -51,6 +53,29 @@ func (w *World) held(profile string, p *Pending, step, healAt int, group map[int
 		return ok && group[from] != group[p.To]
 	case "late-commit":
 		return p.Msg.Vote.Phase == gpbft.COMMIT_PHASE && p.Msg.Vote.Round == holdRound && p.To%2 == 0
+	case "laggard":
+		// node 0 hears nothing until the heal point while the others run the gate schedule
+		if p.To == 0 {
+			return true
+		}
+		fallthrough
+	case "gate":
+		// keep the two groups from agreeing on a proposal: group 1 sees no QUALITY
+		// votes (it will propose the base), and each group sees only its own CONVERGE
+		// values; everything else flows freely, so rounds keep ending with COMMIT bottom
+		if p.FromByz {
+			return false
+		}
+		from, ok := w.ByIdx[p.Msg.Sender]
+		if !ok {
+			return false
+		}
+		switch p.Msg.Vote.Phase {
+		case gpbft.QUALITY_PHASE:
+			return group[p.To] == 1 && from != p.To
+		case gpbft.CONVERGE_PHASE:
+			return group[from] != group[p.To]
+		}
 	}
 	return false
 }
@@ -86,14 +111,22 @@ func (w *World) RunPrefix(t *rapid.T, o RunOpts) {
 	for i := range w.Nodes {
 		group[i] = rapid.IntRange(0, 1).Draw(t, "group")
 	}
-	healAt := rapid.IntRange(0, o.MaxSteps).Draw(t, "healat")
+	healAt := o.MaxSteps * rapid.IntRange(0, 4).Draw(t, "healquarters") / 4
 	holdRound := uint64(rapid.IntRange(0, 2).Draw(t, "holdround"))
-	steps := rapid.IntRange(0, o.MaxSteps).Draw(t, "prefixsteps")
+	// rapid's integer generators favour small values; the prefix length is drawn in
+	// quarters of the budget so that long adversarial prefixes are the normal case
+	steps := o.MaxSteps * rapid.IntRange(0, 4).Draw(t, "prefixquarters") / 4
+	if steps > 0 {
+		steps -= rapid.IntRange(0, min(steps, o.MaxSteps/8)).Draw(t, "prefixtrim")
+	}
 	// at least one node starts at once
 	w.Start(rapid.IntRange(0, len(w.Nodes)-1).Draw(t, "firststart"))
 	for s := 0; s < steps; s++ {
 		if w.AllDecided() {
 			break
+		}
+		if w.maxHonestRound() >= 12 {
+			break // keep phase timeouts (delta * exponent^round) within time.Duration
 		}
 		var deliverable []int
 		for k, p := range w.Pool {
@@ -300,6 +333,7 @@ type CloseResult struct {
 // the bound is exceeded, or maxSteps is hit.
 func (w *World) Close(t *rapid.T, maxSteps int, roundBound uint64) CloseResult {
 	res := CloseResult{RoundAtStart: w.maxHonestRound()}
+	res.MaxRoundAfter = res.RoundAtStart
 	// everybody that has not started yet starts now
 	for i, n := range w.Nodes {
 		if !n.Started {
@@ -358,10 +392,12 @@ func (w *World) Close(t *rapid.T, maxSteps int, roundBound uint64) CloseResult {
 			w.FireAlarm(alarm)
 		default:
 			res.Steps = steps
-			res.MaxRoundAfter = w.maxHonestRound()
 			return res // nothing can happen any more
 		}
 		res.Steps = steps + 1
+		if r := w.maxHonestRound(); r > res.MaxRoundAfter {
+			res.MaxRoundAfter = r
+		}
 		if roundBound > 0 {
 			if r := w.maxHonestRound(); r > res.RoundAtStart+roundBound {
 				res.BoundExceeded = true
@@ -371,7 +407,6 @@ func (w *World) Close(t *rapid.T, maxSteps int, roundBound uint64) CloseResult {
 		}
 	}
 	res.AllDecided = w.AllDecided()
-	res.MaxRoundAfter = w.maxHonestRound()
 	return res
 }
 
